@@ -144,6 +144,9 @@ def run():
     n_before = len(c.reports)
     from props import arealib
     arealib.run_into(c, thorough)
+    # ... and Selection.tla every selection call and query
+    from props import sellib
+    sellib.run_into(c, thorough)
     area_reports, c.reports = c.reports[n_before:], c.reports[:n_before]
     summ = {}
     try:
